@@ -12,7 +12,14 @@ impl AppCounters {
     pub(crate) fn from_update_interval(update: i64) -> Self {
         AppCounters {
             df_count: BTreeMap::new(),
-            timestamp: chrono::Utc::now() + chrono::Duration::seconds(update),
+            // an interval too large (or too negative) for the calendar saturates instead of panicking
+            timestamp: chrono::Duration::try_seconds(update)
+                .and_then(|interval| chrono::Utc::now().checked_add_signed(interval))
+                .unwrap_or(if update > 0 {
+                    DateTime::<Utc>::MAX_UTC
+                } else {
+                    DateTime::<Utc>::MIN_UTC
+                }),
             cleanup_count: 0u32,
         }
     }
